@@ -69,7 +69,9 @@ fn run_case(f: &[String]) -> String {
         for (s, b, nm, v) in &ins[k..] { h.insert(parse_scope(s), parse_beh(b), os(nm), os(v)); hc.insert(parse_scope(s), parse_beh(b), os(nm), os(v)); }
         if h != le || h.apply(qs2.clone(), &env) != out || hc.apply(qs2.clone(), &env) != out { histeq = false; }
     }
-    format!("{};pure={};permeq={};histeq={}", render_env(&out), u8::from(pure), u8::from(permeq), u8::from(histeq))
+    // `apply_to_empty` is observed on its own (it is documented as `apply` to an empty environment)
+    let empty = le.apply_to_empty(qs2);
+    format!("{};pure={};permeq={};histeq={};empty={}", render_env(&out), u8::from(pure), u8::from(permeq), u8::from(histeq), render_env(&empty))
 }
 
 const NAMES: &[&[u8]] = &[b"A", b"B", b"PATH", b"A.b", b"\xffz", b"", b"A=", b"a"];
